@@ -1,4 +1,5 @@
 import Pfl
+#print axioms Pfl.ENFA.toRegexRx_lang
 #print axioms Pfl.Rx.thompson_lang
 #print axioms Pfl.ENFA.langDiff_none_iff
 #print axioms Pfl.ENFA.langDiff_some
